@@ -20,6 +20,8 @@ def tasks(tier, seed):
     for d in range(1, dmax + 1):
         for part in partitions(range(d)):
             add("group_linear", (d, 2 if d < 4 else 1, part), f"group_linear[d={d},{part}]")
+    add("group_linear", (3, 2, [[0, 2], [1]], 0), "group_linear[d=3,zero group]")
+    add("group_linear", (2, 1, [[0, 1]], 0), "group_linear[d=2,zero group]")
     hier = [(1, 1), (2, 1), (1, 2), (2, 2)] if tier == "quick" else [(1, 1), (2, 1), (1, 2), (2, 2), (3, 2), (1, 3), (2, 3)]
     for k, h in hier:
         add("hier", (k, h, "generic", 1), f"hier[k={k},h={h}]")
